@@ -39,8 +39,15 @@ def contexts(tier):
             out.append((f'MPFloatContext({p}, RM.{rm})', p, rm))
     for rm in rn:
         out.append((f'IEEEContext(3, {3 + 1 + (3 if quick else 4)}, RM.{rm})', 4 if quick else 5, rm))
-    if not quick:
+    if quick:
+        # odd and larger precisions for the splitting-based products (F61: ceil(p / 2) was wrong for p = 5, 9, 13, ...)
+        out += [('MPSFloatContext(5, -4, RM.RNE)', 5, 'RNE'), ('MPFloatContext(5, RM.RNA)', 5, 'RNA'), ('MPSFloatContext(6, -4, RM.RNA)', 6, 'RNA'),
+                ('MPFloatContext(7, RM.RNE)', 7, 'RNE'), ('MPFloatContext(9, RM.RNE)', 9, 'RNE')]
+    else:
         out.append(('MPFloatContext(7, RM.RNE)', 7, 'RNE'))
+        out.append(('MPFloatContext(8, RM.RNA)', 8, 'RNA'))
+        out.append(('MPFloatContext(9, RM.RNE)', 9, 'RNE'))
+        out.append(('MPSFloatContext(13, -20, RM.RNE)', 13, 'RNE'))
         out.append(('IEEEContext(5, 16, RM.RNE)', 11, 'RNE'))
     return out
 
